@@ -272,11 +272,17 @@ func (e *evalCtx) ident(name string) sval {
 			return e.results[n]
 		}
 	}
-	if v, ok := e.t.ghostVals[name]; ok {
-		return v
-	}
-	if srt, ok := e.t.h.sorts["ghost:u:"+name]; ok {
-		return sval{term: e.t.h.get(e.st, "ghost:u:"+name), sort: srt}
+	if e.fn == e.t.fn {
+		// ghosts belong to one activation: a callee's clause naming a ghost says nothing about
+		// the caller's ghost of the same name (the clause is skipped at call sites)
+		if v, ok := e.t.ghostVals[name]; ok {
+			return v
+		}
+		if srt, ok := e.t.h.sorts["ghost:u:"+name]; ok {
+			return sval{term: e.t.h.get(e.st, "ghost:u:"+name), sort: srt}
+		}
+	} else if fc := e.t.g.ann.funcs[e.t.g.contractKey(e.fn)]; fc != nil && fc.declaresGhost(name) {
+		e.fail("ghost %q of the callee is not visible at a call site", name)
 	}
 	// a reassigned parameter: outside old() the name means its current value
 	if e.locals && !e.inOld && e.fn == e.t.fn {
@@ -770,6 +776,16 @@ func (e *evalCtx) callExpr(x *sx) sval {
 	case "evcount":
 		hv := t.h.reg("ghost:"+args[0].val+".n", "Int")
 		return intv(t.h.get(e.st, hv))
+	case "fn_is":
+		// fn_is(v, "relpkg:name"): the function value v runs that function / closure / bound method
+		if len(args) != 2 || args[1].op != "str" {
+			e.fail("fn_is(value, \"relpkg:name\")")
+		}
+		if !t.g.knownFnKey(args[1].val) {
+			e.fail("fn_is: no function %q in the module", args[1].val)
+		}
+		v := e.eval(args[0])
+		return boolv("(= (fnid " + v.term + ") " + nameTag("fn:"+args[1].val) + ")")
 	case "isprint":
 		v := e.eval(args[0])
 		return boolv("(isprint " + v.term + ")")
